@@ -289,10 +289,13 @@ class Base:
                 annotations = self.annotations if not args or not any(self is arg for arg in args) else ()
             else:
                 annotations = simplified.annotations
-        if variables is None and op in all_operations:
-            variables = self.variables
-        if symbolic is None and op in all_operations:
-            symbolic = self.symbolic
+        # ... and they are the leaf's own: the receiver's only if it is that leaf, the simplifier's result if the
+        # node collapsed into one (0 | y -> y, rebuilt from the receiver 0, was a symbol y without variables)
+        leaf = self if simplified is None else simplified
+        if variables is None and op in all_operations and leaf.op == op:
+            variables = leaf.variables
+        if symbolic is None and op in all_operations and leaf.op == op:
+            symbolic = leaf.symbolic
 
         return type(self)(
             op,
